@@ -507,7 +507,10 @@ def run(ctx, n):
 def http_scenarios(draw):
     from checks import shard_common as scm
     c = draw(scm.shard_cases(max_grid=3, min_chunks=1))
-    c["kind"] = draw(st.sampled_from(["plain", "shard", "legacy"]))
+    # (legacy_some / stale_legacy: some shards in the legacy layout; current
+    # .shard files with left-over, outdated .index / .data files beside them)
+    c["kind"] = draw(st.sampled_from(["plain", "shard", "legacy",
+                                      "legacy_some", "stale_legacy"]))
     c["target"] = draw(st.integers(0, 100))
     return c
 
@@ -572,7 +575,12 @@ def check_http(ctx, case):
             # HTTP error statuses at every request of the operation
             nreq = len(idxs)
             for k in range(nreq):
-                for status in ("403", "404", "500", "503"):
+                for status in ("403", "404", "500", "503", "401", "429",
+                               "410", "400", "502"):
+                    if status == "404" and case["kind"] == "stale_legacy":
+                        # "not found" for the .shard file legitimately sends
+                        # the reader to the (outdated) legacy files
+                        continue
                     srv.reset_count()
                     srv.set_faults([httpd.Fault(k, status)])
                     exc = None
